@@ -88,18 +88,13 @@ Qed.
 
 (* ------------------------------------------------------------------ inversion of "no error" *)
 
-Definition pn_errs (e : experiment) : list err :=
-  when (match e_params e with [] => negb (e_nas e) | _ => false end) (E 44) ++
-  when (match e_params e with [] => false | _ => e_nas e end) (E 45) ++
-  params_errs 0 (e_params e).
-
 Lemma validate_gen_nil en e mid :
   validate_gen en e mid = Ok [] <->
   budget_errs e = [] /\ mid = [] /\ objective_errs (e_objective e) = [] /\
   algorithm_errs (cfg en) (e_algorithm e) = [] /\ early_errs (cfg en) (e_early e) = [] /\ resume_errs (e_resume e) = [] /\
   template_errs en e = Ok [] /\ pn_errs e = [] /\ mc_errs en e = Ok [].
 Proof.
-  unfold validate_gen. fold (pn_errs e).
+  unfold validate_gen.
   split.
   - destruct (objective_errs (e_objective e)) as [|o oe] eqn:O.
     + destruct (template_errs en e) as [te| |]; try discriminate.
@@ -284,8 +279,6 @@ Qed.
 
 (* ------------------------------------------------------------------ the generator *)
 
-Definition non_meta (p : tparam) : bool := match tp_sub p with None => true | Some _ => false end.
-
 Lemma is_meta_key_sub p : is_meta_key p = true -> non_meta p = false.
 Proof. unfold is_meta_key, non_meta. destruct (tp_sub p); [reflexivity|discriminate]. Qed.
 
@@ -324,23 +317,23 @@ Proof.
   - destruct (IH I) as [w ->]. eauto.
 Qed.
 
-(* references to trial metadata resolve, whatever index an earlier reference left behind *)
+(* references to trial metadata resolve: a known key, and for Labels[x] / Annotations[x] the template carries x *)
 Definition meta_resolvable (f : tplfacts) (p : tparam) : Prop :=
-  non_meta p = false -> forall asg stale, exists v s', resolve f asg stale p = Ok (v, s') /\ (forall x, v <> VAssign x).
+  non_meta p = false -> forall asg, exists v, resolve f asg p = Ok v /\ (forall x, v <> VAssign x).
 
-Lemma resolve_all_ok f asg : forall ps stale,
+Lemma resolve_all_ok f asg : forall ps,
   Forall (fun p => non_meta p = true -> In (tp_ref p) (map fst asg)) ps ->
   Forall (meta_resolvable f) ps ->
-  exists m, resolve_all f asg stale ps = Ok (m, length (filter non_meta ps)).
+  exists m, resolve_all f asg ps = Ok (m, length (filter non_meta ps)).
 Proof.
-  induction ps as [|p r IH]; intros stale F1 F2; cbn [resolve_all filter]; [eauto|].
+  induction ps as [|p r IH]; intros F1 F2; cbn [resolve_all filter]; [eauto|].
   inversion F1 as [|? ? P1 R1]; inversion F2 as [|? ? P2 R2]; subst.
   destruct (non_meta p) eqn:NM.
   - unfold resolve. unfold non_meta in NM. destruct (tp_sub p); [discriminate|].
     destruct (assoc_in _ _ (P1 eq_refl)) as [v ->].
-    destruct (IH stale R1 R2) as [m ->]. cbn [length]. eauto.
-  - destruct (P2 NM asg stale) as (v & s' & -> & NV).
-    destruct (IH s' R1 R2) as [m ->].
+    destruct (IH R1 R2) as [m ->]. cbn [length]. eauto.
+  - destruct (P2 NM asg) as (v & -> & NV).
+    destruct (IH R1 R2) as [m ->].
     destruct v; try (exfalso; eapply NV; reflexivity); eauto.
 Qed.
 
@@ -357,12 +350,63 @@ Proof.
   intro I. apply NI. apply in_map_iff in I. destruct I as (x & E & Ix). apply filter_In in Ix. apply in_map_iff. exists x. tauto.
 Qed.
 
+(* ------------------------------------------------------------------ the repaired rules 59 and 60 *)
+
+(* rule 59 (duplicate-parameter-name): no error from validateParameters => the parameter names are distinct *)
+Lemma params_errs_nodup : forall ps i seen,
+  params_errs i seen ps = [] -> NoDup (map p_name ps) /\ (forall n, In n (map p_name ps) -> ~ In n seen).
+Proof.
+  induction ps as [|p r IH]; intros i seen; cbn [params_errs map].
+  - intros _. split; [constructor|intros ? []].
+  - intro H. apply app_eq_nil in H. destruct H as [H59 H]. apply app_eq_nil in H. destruct H as [_ H].
+    apply IH in H. destruct H as [ND NS].
+    apply when_nil in H59. destruct H59 as [H59|H59]; [|discriminate].
+    split.
+    + constructor; [|exact ND]. intro I. apply (NS _ I). now left.
+    + intros n [<-|I]; [now apply str_mem_false|]. intro J. apply (NS _ I). now right.
+Qed.
+
+(* rule 60 (unreferenced-parameter): no error => every parameter name is the reference of a trial parameter that consumes an assignment *)
+Lemma unref_errs_nil refs : forall ps i, unref_errs i refs ps = [] -> forall n, In n (map p_name ps) -> In n refs.
+Proof.
+  induction ps as [|p r IH]; intros i; cbn [unref_errs map]; [intros _ ? []|].
+  intro H. apply app_eq_nil in H. destruct H as [H60 H].
+  apply when_nil in H60. destruct H60 as [H60|H60]; [|discriminate]. apply negb_false_iff in H60.
+  intros n [<-|I]; [now apply str_mem_In|]. eauto.
+Qed.
+
+Lemma pn_errs_nil e :
+  pn_errs e = [] ->
+  NoDup (map p_name (e_params e)) /\
+  (forall t ps, e_template e = Some t -> t_params t = Some ps ->
+   forall n, In n (map p_name (e_params e)) -> exists p, In p ps /\ non_meta p = true /\ tp_ref p = n).
+Proof.
+  unfold pn_errs. intro H. split_nil H. split.
+  - apply params_errs_nodup in H2. tauto.
+  - intros t ps Et Ep n I. unfold referenced_errs in H. rewrite Et in H.
+    pose proof (unref_errs_nil _ _ _ H n I) as J. unfold consumed_refs in J. rewrite Ep in J.
+    apply in_map_iff in J. destruct J as (p & <- & Ip). apply filter_In in Ip. exists p. tauto.
+Qed.
+
+Lemma admitted_params_distinct en e0 : admitted en e0 -> NoDup (map p_name (e_params e0)).
+Proof.
+  unfold admitted, validate. intro A. apply validate_gen_nil in A. destruct A as (_ & _ & _ & _ & _ & _ & _ & P & _).
+  apply pn_errs_nil in P. destruct P as [ND _].
+  unfold set_default in ND; cbn [e_params] in ND. rewrite map_map in ND. cbn [default_param p_name] in ND. exact ND.
+Qed.
+
+Lemma admitted_params_referenced en e0 : admitted en e0 ->
+  forall t ps, e_template (set_default e0) = Some t -> t_params t = Some ps ->
+  forall n, In n (map p_name (e_params e0)) -> exists p, In p ps /\ non_meta p = true /\ tp_ref p = n.
+Proof.
+  unfold admitted, validate. intro A. apply validate_gen_nil in A. destruct A as (_ & _ & _ & _ & _ & _ & _ & P & _).
+  apply pn_errs_nil in P. destruct P as [_ R]. intros t ps Et Ep n I. apply (R t ps Et Ep).
+  unfold set_default; cbn [e_params]. rewrite map_map. cbn [default_param p_name]. exact I.
+Qed.
+
 (* domain of the buildability theorem *)
 Record runnable (en : env) (e : experiment) : Prop := {
   rn_params : e_params e <> [];                                               (* a hyperparameter experiment (not NAS) *)
-  rn_nodup : NoDup (map p_name (e_params e));                                 (* excludes duplicate-parameter-name *)
-  rn_referenced : forall t ps, e_template e = Some t -> t_params t = Some ps ->
-                  forall n, In n (map p_name (e_params e)) -> exists p, In p ps /\ non_meta p = true /\ tp_ref p = n;   (* excludes F8 *)
   rn_meta : forall t ps, e_template e = Some t -> t_params t = Some ps -> Forall (meta_resolvable (facts en)) ps;  (* excludes unresolvable-trial-metadata *)
   rn_raw : forall t, e_template e = Some t -> t_spec t = None -> tf_raw_conv (facts en) = true }.  (* a ConfigMap template is YAML before substitution *)
 
@@ -374,15 +418,16 @@ Lemma template_runs en e0 asg :
   admitted en e0 -> runnable en (set_default e0) -> assignment_for (set_default e0) asg ->
   exists m, apply_parameters en (set_default e0) asg = Ok m.
 Proof.
-  set (e := set_default e0). unfold admitted, validate. fold e. intros A [RP RN RR RM RW] [AL AI].
-  apply validate_gen_nil in A. destruct A as (_ & _ & _ & _ & _ & _ & T & _ & _).
+  set (e := set_default e0). unfold admitted, validate. fold e. intros A [RP RM RW] [AL AI].
+  apply validate_gen_nil in A. destruct A as (_ & _ & _ & _ & _ & _ & T & PN & _).
+  apply pn_errs_nil in PN. destruct PN as [RN RR].
   apply template_errs_nil in T. destruct T as (t & ps & tpl & Et & Ep & _ & _ & _ & Src & G & final & L & _).
   apply tp_loop_nil in L. destruct L as (F & ND & _).
   unfold apply_parameters. rewrite Et, G, Ep.
   replace (match t_spec t with Some _ => false | None => negb (tf_raw_conv (facts en)) end) with false.
   2:{ destruct (t_spec t) eqn:Es; [reflexivity|]. rewrite (RW t Et Es). reflexivity. }
   assert (NE : map p_name (e_params e) <> []) by (destruct (e_params e); [congruence|discriminate]).
-  destruct (resolve_all_ok (facts en) asg ps "") as [m Hm].
+  destruct (resolve_all_ok (facts en) asg ps) as [m Hm].
   { eapply Forall_impl; [|exact F]. cbv beta. intros p H NM. apply AI. auto. }
   { exact (RM t ps Et Ep). }
   rewrite Hm.
